@@ -294,4 +294,25 @@ example : slice (some [4, 5, 6] : MSet Int) [6, 4, 5] = some [6, 4, 5] ∧ slice
     ∧ slice (some [] : MSet Int) [] = none ∧ append (some [4, 5] : MSet Int) (some [1]) [5, 4] = some [1, 5, 4]
     ∧ append (none : MSet Int) none [] = none := by decide
 
+/-! ## the regenerated facts -/
+
+/-- **C18_current.**  The size-based shortcut conditions regenerated from `mapset/mapset.go`
+(`Gen.Mapset`, written by `extract/mapset.go` on every run) are the pinned ones: `Intersects` swaps its
+operands when `len(s) > len(t)`; `HasAll` answers `len(ts) == 0` and `HasAny` answers false for
+`len(s) == 0`; `IsSubset` answers true for `len(s) == 0` and false for `len(s) > len(t)`; `Equals` answers
+false for `len(s) != len(t)`; and the extractor recognised the rest of the text of these five methods
+(the loops and their results).  `Model.Mapset` is built from these definitions (`Proofs.Mapset.*_def`
+restate it with the tests written out), so the theorems above are about the tests that are in the source
+now; a one-token change in any of them changes `Gen/Mapset.lean` and this theorem stops compiling. -/
+theorem C18_current :
+    MdsVerif.Gen.Mapset.recognised = true ∧
+    (∀ ls lt, MdsVerif.Gen.Mapset.intersectsSwaps ls lt = decide (ls > lt)) ∧
+    (∀ ls, MdsVerif.Gen.Mapset.hasAllEmpty ls = decide (ls = 0)) ∧
+    (∀ lts, MdsVerif.Gen.Mapset.hasAllEmptyResult lts = decide (lts = 0)) ∧
+    (∀ ls, MdsVerif.Gen.Mapset.hasAnyEmpty ls = decide (ls = 0)) ∧
+    (∀ ls, MdsVerif.Gen.Mapset.isSubsetEmpty ls = decide (ls = 0)) ∧
+    (∀ ls lt, MdsVerif.Gen.Mapset.isSubsetTooBig ls lt = decide (ls > lt)) ∧
+    (∀ ls lt, MdsVerif.Gen.Mapset.equalsDiffer ls lt = decide (ls ≠ lt)) :=
+  ⟨rfl, fun _ _ => rfl, fun _ => rfl, fun _ => rfl, fun _ => rfl, fun _ => rfl, fun _ _ => rfl, fun _ _ => rfl⟩
+
 end MdsVerif.Props.C18
